@@ -1,9 +1,9 @@
-LC_HEADER = ('From LC Require Import Lib.Bytes Model.MountInfo Model.FsTree Model.Kernel Model.Layers Cases.LC Cases.C10.\n'
+LC_HEADER = ('From LC Require Import Lib.Bytes Model.MountInfo Model.FsTree Model.Kernel Model.Layers Model.StageOut Cases.LC Cases.C10.\n'
              'Open Scope string_scope.\n')
 PROP = dict(
     go='c10', n_quick=240, n_thorough=2400,
     coq_header=LC_HEADER,
-    case_type='LC.case', verdict='C10.verdict',
+    case_type='C10.case', verdict='C10.verdict',
     rule='for each sampled (world, command) the fault-free run is counted and the command re-run with the k-th mutating operation failing, k sampled incl. first and last; non-trivial: the fault position was reached',
     explanation='per step Coq evaluates: model step = observed step (result class, operation log, file tree, kernel table, '
                 'layer states) from the observed world before it, and the C10 predicate on the observed worlds',
